@@ -17,7 +17,8 @@ Inductive hop :=
 | ORecvGraft (p : peer) (ts : list topic)
 | ORecvPrune (p : peer) (prs : list (topic * option Z))
 | OHeartbeat (obs : list (topic * list hev)) (fobs : list (topic * list peer))
-| OAdvance (d : Z).
+| OAdvance (d : Z)
+| OFanoutPub (t : topic) (chosen : list peer).
 
 Record rstep := { st_scores : list (peer * Z); st_op : hop; st_ctl : list ctl; st_snap : snapshot; st_pen : nat }.
 Record rcase := { rc_params : params; rc_steps : list rstep }.
@@ -41,6 +42,7 @@ Definition to_rop (P : params) (sc : list (peer * Z)) (s : rstate) (h : hop) : o
   | ORecvPrune p prs => Some (Router.ORecvPrune p prs)
   | OHeartbeat o f => Some (Router.OHeartbeat o f)
   | OAdvance d => Some (Router.OAdvance d)
+  | OFanoutPub t ch => Some (Router.OFanoutPub t ch)
   end.
 
 Definition oz_eqb (a b : option Z) : bool :=
@@ -137,6 +139,35 @@ Definition mon_c07 (m' : mst) (st : rstep) : option nat :=
        | _ => None
        end.
 
+(* When the model refuses a heartbeat, the observation is looked at again WITHOUT relying on the order of the trace
+   events, against the clauses of C07 themselves (the model state before the heartbeat has been validated against the
+   implementation's snapshot at every earlier step).  Per joined topic, with M = the mesh minus its negative-score
+   members, Pr / G = the peers the heartbeat pruned / grafted:
+   75  M had reached Dhi but what was kept is not an admissible cut (not D members, fewer outbound members than
+       min(Dout, available), or a top-Dscore member dropped for no reason);
+   76  M was below Dlo but fewer peers were added than min(D - |M|, eligible candidates);
+   77  a peer was added that is not an eligible candidate (in the mesh already, under backoff, direct, negative score,
+       not in the topic or not speaking the mesh protocol). *)
+Definition hb_diag (P : params) (sc : list (peer * Z)) (s : rstate) (obs : list (topic * list hev)) : option nat :=
+  let s0 := clear_backoff P (set_time s (S (ticks s)) (now s)) in
+  fold_left (fun acc e =>
+    match acc with
+    | Some c => Some c
+    | None =>
+        let t := fst e in
+        let evs := match aget t obs with Some l => l | None => [] end in
+        let Pr := concat (map (fun h => match h with HPrune p => [p] | _ => [] end) evs) in
+        let G := concat (map (fun h => match h with HGraft p => [p] | _ => [] end) evs) in
+        let neg := filter (fun p => score_of sc p <? 0) (snd e) in
+        let M := filter (fun p => negb (memb p neg)) (snd e) in
+        let s1 := do_prunes P s0 t neg in
+        let cands := gs_peers s1 t (fun p => elig s1 t p && (0 <=? score_of sc p)) in
+        if Nat.leb (pDhi P) (length M) && negb (cut_ok P sc s1 M (filter (fun p => negb (memb p Pr)) M)) then Some 75%nat
+        else if Nat.ltb (length M) (pDlo P) && Nat.ltb (length G) (take_count (pD P - length M) cands) then Some 76%nat
+        else if existsb (fun g => negb (memb g cands)) G then Some 77%nat
+        else None
+    end) (mesh s0) None.
+
 Section ForProperty.
 Variable which : nat.   (* 7: C07 monitor only, 8: C08 monitor only, 0: both *)
 Definition keep (v : option nat) : option nat :=
@@ -172,7 +203,11 @@ Fixpoint exec (P : params) (s : rstate) (m : mst) (l : list rstep) (idx : nat) :
           | None => fail 1%nat
           | Some o =>
               match step P (st_scores st) s o with
-              | None => fail 2%nat
+              | None =>
+                  match st_op st with
+                  | OHeartbeat obs _ => match keep (hb_diag P (st_scores st) s obs) with Some c => VMonFail idx c | None => fail 2%nat end
+                  | _ => fail 2%nat
+                  end
               | Some (s', c, pen) =>
                   if negb (ctls_eqb c (st_ctl st)) then fail 3%nat
                   else if negb (Nat.eqb pen (st_pen st)) then fail 4%nat
